@@ -340,6 +340,23 @@ def run(rep, ctx):
     okz = len(rz) == 1 and len(tb) == 1 and "tablen" in txt(call_args(rz[0])[0]) and "2*(size_t)sr->h.namelen" in txt(call_args(rz[0])[0]) and txt(kids(tb[0])[1]) == "sr->name+sr->h.namelen"
     b2.check(okz, "sufheadcheck|capacity", short_loc(shc.loc), "scratch = tablen + 2*namelen + 6 bytes, table starts namelen bytes in: at least tablen bytes remain")
 
+    # the scratch of a suffix starts zero-filled: resize() zero-fills only what it adds, so the object is either created for
+    # each suffix (declared inside the loop over suffixes) or its buffer is emptied before the resize.  The readers rely on
+    # the zero fill where the file states no table, an unterminated last table line, and after binary name / table bytes.
+    for g_ in (gsr, bsr):
+        chk_ = [n for n in g_.walk() if n["k"] == "CXXMemberCallExpr" and n.get("callee", "").endswith("::sufheadcheck")]
+        for k_, n in enumerate(chk_):
+            refs_ = [x for a_ in call_args(n) for x in walk(a_) if x["k"] == "DeclRefExpr" and x.get("dk") == "Var"]
+            vd_ = [v for v in g_.walk() if v["k"] == "VarDecl" and refs_ and v.get("declId") == refs_[0].get("declId")]
+            lp_ = g_.enclosing(n, ("ForStmt", "WhileStmt", "DoStmt"))
+            fresh = bool(vd_) and lp_ is not None and any(a_["i"] == lp_["i"] for a_ in g_.ancestors(vd_[0]))
+            emptied = any(c["k"] == "CXXMemberCallExpr" and (c.get("callee") or "").split("::")[-1] in ("clear", "assign") and "xp" in txt(c) and
+                          rz and shc.cfg.dominates(c, rz[0]) for c in shc.walk())
+            b2.check(fresh or emptied, "%s|fresh-scratch#%d" % (g_.name, k_ + 1), short_loc(n.get("l")),
+                     "the scratch object checked by sufheadcheck is created for each suffix (or emptied before it is resized)",
+                     "%s: the scratch object outlives one suffix and its buffer is only resized: bytes of an earlier suffix's name or table stay where the reader expects zero fill, "
+                     "so a later suffix is delivered with a table or name longer than the file states" % g_.name)
+
     # ---- F1: file text never becomes a printf format -------------------------------------------------
     f1 = rep.rule("C14.F1", "WHO", "the error formatter (vsnprintf) receives literal formats only; text read from the file is passed as an argument, and the conversions match the arguments", floor=8)
     # frozen exception, read on the pinned tree: CheckReader's last branch is reached only for result codes other than OK / Early_EOF / Bad_Line, i.e. for
